@@ -75,14 +75,20 @@ CHECKS = {'C01': {'level': 'exploration',
                  '80-letter alphabet (see exhaustive_over) and randomly (rapid) up to length 300; oracle = the written list, compared with '
                  'Seek+Next, Range per block, Clone, Buffer/Commit codec, Log.Append/Range and a merge->put swap pass. non-trivial = the sequence '
                  'has >=2 of {negative delta, block switch, >=3-byte varint delta, interleaved blocks, swap with different length}; distinct = hash '
-                 'of the rendered op list',
+                 'of the rendered op list | thorough tier additionally runs the coverage-guided native fuzz target FuzzBufferOps (bytes decoded into '
+                 'the same op grammar, semantic oracle inside the target) for 90 s on all cores; see coverage.native_fuzz_execs',
          'assumptions': ['offsets < 2^31 and byte strings <= 65535 bytes (format limits)',
                          'merge operations always carry a value (as every caller in kelindar/column does)'],
          'tests': [{'run': '^TestC05Exhaustive$', 'timeout': {'quick': 600, 'thorough': 3000}},
                    {'run': '^TestC05Random$',
                     'checks': {'quick': 8000, 'thorough': 40000},
                     'shards': {'quick': 1, 'thorough': 16},
-                    'timeout': {'quick': 600, 'thorough': 3000}}]},
+                    'timeout': {'quick': 600, 'thorough': 3000}},
+                   {'run': 'FuzzBufferOps (native)',
+                    'fuzz': 'FuzzBufferOps',
+                    'thorough_only': True,
+                    'fuzztime': {'thorough': '90s'},
+                    'timeout': {'thorough': 1200}}]},
  'C06': {'level': 'exploration',
          'rule': 'sequential part: model-based histories over all column kinds (late columns, custom merges, key operations, rollbacks, prefills to '
                  '3 blocks, bulk deletes, index create/drop mirrored on the replica) on a primary whose commits go to a real commit.Channel AND a '
